@@ -5,3 +5,4 @@
         final(w).journal.recs == old(w).journal.recs && final(w).poison == old(w).poison, // [C01:rotation-frame]
         forall|k: u64| old(w).trees.dom().contains(k) ==> final(w).trees.dom().contains(k) && (#[trigger] final(w).trees[k]).applied == old(w).trees[k].applied, // [C01:maintenance-keeps-applied-ops]
         tracker_inv(*final(w)), // [C05:P-REG]
+        !old(w).reclaim_due ==> !final(w).reclaim_due,   // (only a flush makes a reclaim pass due)
